@@ -104,10 +104,15 @@ ROOTS = ['Module', 'Readable', 'Writable', 'Drivable']
 # ----------------------------------------------------------------------------------------
 # building datatypes / declarations from the JSON program
 # ----------------------------------------------------------------------------------------
-def mk_dt(spec):
+def mk_dt(spec, resolve=None):
     from frappy import datatypes as D
     t = spec['t']
     props = dict(spec.get('props') or {})
+    if t == 'status':
+        # `StatusType(<class with a status parameter> | None, *<standard code names>, **<custom codes>)`: the codes of the
+        # parent are taken from the class as it is now (datatypes.py: StatusType.__init__)
+        parent = resolve(spec['parent']) if spec.get('parent') else None
+        return D.StatusType(parent, *spec['std'], **spec['custom'])
     if t == 'float':
         return D.FloatRange(**props)
     if t == 'int':
@@ -179,13 +184,19 @@ def mk_func(sig):
     return ns['func']
 
 
-def mk_decl(decl):
+def mk_decl(decl, resolve=None):
     from frappy.params import Parameter, Command
     k = decl['k']
+    if k == 'struct':
+        # a StructParam: a struct parameter together with one parameter per member (frappy/extparams.py)
+        from frappy.extparams import StructParam
+        pd = {m: Parameter('member ' + m, mk_dt(dt)) for m, dt in decl['members']}
+        return StructParam(decl.get('desc'), pd, decl.get('prefix', ''), readonly=bool(decl.get('readonly')))
     if k == 'param':
         kw = dict(decl.get('props') or {})
         if decl.get('dt') is not None:
-            kw['datatype'] = mk_dt(decl['dt'])
+            kw['datatype'] = mk_dt(decl['dt'], resolve)
+            kw.update(decl.get('dtkw') or {})     # datatype properties given as keywords next to the datatype
         if not decl.get('inherit', True):
             kw['inherit'] = False
         return Parameter(decl.get('desc'), **kw)
@@ -334,15 +345,23 @@ def outcome(f, *args):
         return [type(e).__name__]
 
 
-def dump_accessible(aobj, objs, aname, modobj=None):
+def write_probe(aobj, aname, modobj):
+    """behaviour of the instance: what write_<p>(v) does, through the generated wrapper"""
+    from frappy.params import Parameter
+    if not isinstance(aobj, Parameter):
+        return None
+    wfunc = getattr(modobj, 'write_' + aname, None)
+    return [outcome(lambda v: aobj.datatype.export_value(wfunc(v)), v) for v in WRITE_CATALOGUE] if wfunc else None
+
+
+def dump_accessible(aobj, objs, aname, modobj=None, writes=None):
     from frappy.params import Parameter
     isparam = isinstance(aobj, Parameter)
     d = {'cmd': not isparam}
     if modobj is not None and isparam:
-        # behaviour of the instance: what write_<p>(v) does, through the generated wrapper (before anything else is looked
-        # at: the probe leaves the last accepted value in the parameter, in every dump alike)
-        wfunc = getattr(modobj, 'write_' + aname, None)
-        d['writes'] = [outcome(lambda v: aobj.datatype.export_value(wfunc(v)), v) for v in WRITE_CATALOGUE] if wfunc else None
+        # the write probes of ALL parameters of the module are done before anything else is looked at: they leave the last
+        # accepted value in the parameter (and, through callbacks, in parameters following it), in every dump alike
+        d['writes'] = writes
         d['validates'] = [outcome(lambda v: aobj.datatype.export_value(aobj.datatype.validate(v)), v) for v in WRITE_CATALOGUE]
     props = {}
     for pn, po in aobj.propertyDict.items():       # what exportProperties() does, the datatype apart
@@ -482,8 +501,9 @@ def dump_owner(owner, is_class, calls=None):
     if accessibles is None:       # a mixin not derived from HasAccessibles: its Parameter objects are its state
         from frappy.params import Accessible
         accessibles = {k: v for k, v in owner.__dict__.items() if isinstance(v, Accessible)}
+    writes = {} if is_class else {aname: write_probe(aobj, aname, owner) for aname, aobj in accessibles.items()}
     for aname, aobj in accessibles.items():
-        accs.append([aname, dump_accessible(aobj, objs, aname, None if is_class else owner)])
+        accs.append([aname, dump_accessible(aobj, objs, aname, None if is_class else owner, writes.get(aname))])
     if is_class:
         pd = property_objects(owner)
         mprops = [[pn] + dump_property(po) for pn, po in pd.items()]
@@ -638,6 +658,111 @@ def create_module(ex, section):
     return None, 'error:ConfigError' if any(e.startswith('error creating module') for e in node.errors) else 'error:Exception'
 
 
+_HOOKS = []          # what the member access methods of generated classes do besides their job (set by the context probe)
+_HW = {}             # (id(module), parameter) -> the value the hardware of this module shows for this parameter
+
+
+def member_access(pname):
+    """read_<p> / write_<p> of a member of a struct parameter as a driver writes them: the value comes from / goes to the
+    hardware of this module.  A driver may talk to other modules from there (cascaded loops, a module watching another one):
+    that is what the hooks are for."""
+    def read(self):
+        for hook in list(_HOOKS):
+            hook(self, 'read', pname)
+        return _HW.get((id(self), pname), self.parameters[pname].value)
+
+    def write(self, value):
+        for hook in list(_HOOKS):
+            hook(self, 'write', pname)
+        return value
+    return read, write
+
+
+def struct_params(modobj):
+    """[(struct parameter name, [(member, parameter name)])] of a module"""
+    from frappy.extparams import StructParam
+    return [(n, [(m, p.name) for m, p in po.paramdict.items()]) for n, po in modobj.parameters.items()
+            if isinstance(po, StructParam) and po.paramdict]
+
+
+def context_probe(ex):
+    """behaviour of one module while ANOTHER module is being accessed.  For every module Y with a struct parameter S: a member
+    of S is updated (`Y.<member> = v`: what a driver does when it learns a new value; or Y.read_<member>() with a new value on
+    the hardware) and what Y shows afterwards (member, struct) is recorded - on its own ('alone') and from inside a member access
+    method of another module X while the struct of X is read / written (`X.read_<T>()`, `X.write_<T>(...)`).
+    -> [[key, context, outcome]]; the monitor (Spec/C09.lean: contextFreeB) demands one outcome per key."""
+    mods = [(n, o, struct_params(o)) for n, o in ex.insts.items()]
+    mods = [(n, o, sp) for n, o, sp in mods if sp]
+    out = []
+    if len(mods) < 2:
+        return out
+
+    def show(y, s, members):
+        return outcome(lambda _: [canon(y.parameters[pn].value) for _, pn in members] + [canon(dict(y.parameters[s].value))], None)
+
+    def act(y, how, pn, v):
+        if how == 'assign':
+            setattr(y, pn, v)
+        else:
+            _HW[(id(y), pn)] = v
+            try:
+                getattr(y, 'read_' + pn)()
+            finally:
+                _HW.pop((id(y), pn), None)
+
+    saved = [(o.parameters[pn], o.parameters[pn].value, o.parameters[pn].readerror)
+             for _, o, sp in mods for s_, members in sp for pn in [s_] + [q for _, q in members]]
+    try:
+        _context_probe(mods, out, show, act)
+    finally:
+        for pobj, value, err in saved:       # the probe leaves no trace in what the next dumps show
+            pobj.value, pobj.readerror = value, err
+    return out
+
+
+def _context_probe(mods, out, show, act):
+    for yn, y, ysp in mods[:3]:
+        for s, members in ysp[:1]:
+            m, pn = members[0]
+            for how in ('assign', 'read'):
+                key = f'inst:{yn}:{s}.{m}:{how}'
+                contexts = [('alone', None, None)]
+                for xn, x, xsp in mods[:4]:
+                    if x is not y:
+                        t = xsp[0][0]
+                        contexts.append((f'in inst:{xn}.read_{t}', x, lambda x=x, t=t: getattr(x, 'read_' + t)()))
+                        if not x.parameters[t].readonly:
+                            contexts.append((f'in inst:{xn}.write_{t}', x,
+                                             lambda x=x, t=t: getattr(x, 'write_' + t)(dict(x.parameters[t].value))))
+                for cname, x, access in contexts:
+                    fired = []
+
+                    def hook(mod, _how, _pn, x=x, fired=fired):
+                        if mod is x and not fired:
+                            fired.append('ok')
+                            try:
+                                act(y, how, pn, 2)
+                            except Exception as e:       # the class of the error is the observation
+                                fired[0] = type(e).__name__
+                    try:
+                        setattr(y, pn, 1)            # the same start in every context, set outside of any access
+                    except Exception:
+                        continue
+                    if x is None:
+                        hook(None, None, None, x=None)
+                    else:
+                        _HOOKS.append(hook)
+                        try:
+                            access()
+                        except Exception:       # what becomes of the access to X is X's business
+                            pass
+                        finally:
+                            _HOOKS.remove(hook)
+                        if not fired:
+                            continue
+                    out.append([key, cname, show(y, s, members) if fired == ['ok'] else fired])
+
+
 def run_op(op, ex):
     """-> (outcome, target owner key or None, extra)"""
     import frappy.modules as M
@@ -649,8 +774,15 @@ def run_op(op, ex):
         if kind == 'class':
             bases = tuple(classes[b] if b in classes else builtins[b] for b in op['bases'])
             ns = {}
+            resolve = lambda n: classes[n] if n in classes else builtins[n]       # noqa: E731
             for aname, decl in op['decls']:
-                ns[aname] = mk_decl(decl)
+                ns[aname] = mk_decl(decl, resolve)
+                if decl['k'] == 'struct':
+                    for m, _ in decl['members']:
+                        pname = decl.get('prefix', '') + m
+                        ns['read_' + pname], wfunc = member_access(pname)
+                        if not decl.get('readonly'):
+                            ns['write_' + pname] = wfunc
             ns['__module__'] = 'verif_c09'
             if op.get('mixin'):
                 cls = type(op['name'], bases or (object,), ns)
@@ -916,7 +1048,7 @@ class Exec:
     def apply(self, op):
         outcome, target, extra = run_op(op, self)
         after, part = snapshot(self)
-        st = {'op': op, 'outcome': outcome, 'target': target, 'after': after, 'part': part}
+        st = {'op': op, 'outcome': outcome, 'target': target, 'after': after, 'part': part, 'ctx': context_probe(self)}
         st.update(extra)
         if op['op'] == 'class' and outcome == 'ok':
             cls = self.classes[op['name']]
@@ -1044,6 +1176,37 @@ def gen_dt(rng, kind=None, depth=0):
     return {'t': 'array', 'props': props, 'child': child}
 
 
+STATUS_STD = ['BUSY', 'RAMPING', 'DISABLED', 'STANDBY', 'UNKNOWN', 'FINALIZING']
+STATUS_NAMES = ['TRIPPED', 'INTERLOCK', 'QUENCH']
+STATUS_CODES = [410, 410, 420]
+SNAMES = ['ctrl', 'pars']
+SMEMBERS = [['kp', 'ki'], ['kp', 'ki', 'kd'], ['speed', 'backlash']]
+
+
+def gen_status(rng, parents, used):
+    """a status datatype extending the status of a class (mostly a base of the class being defined) by standard codes and
+    by custom codes.  Constants used before in this program (lists of standard codes, custom code numbers) are used again
+    with preference: independent class families tend to extend their status in parallel ways."""
+    parent = rng.choice(parents) if parents and rng.random() < 0.93 else None
+    if used['std'] and rng.random() < 0.6:
+        std = list(rng.choice(used['std']))
+    else:
+        std = rng.sample(STATUS_STD, rng.choice([0, 1, 1, 2]))
+    custom = {}
+    if rng.random() < 0.55:
+        code = rng.choice(used['codes']) if used['codes'] and rng.random() < 0.7 else rng.choice(STATUS_CODES)
+        custom[rng.choice(STATUS_NAMES)] = code
+        used['codes'].append(code)
+    used['std'].append(std)
+    return {'t': 'status', 'parent': parent, 'std': std, 'custom': custom}
+
+
+def gen_struct(rng):
+    members = rng.choice(SMEMBERS)
+    return {'k': 'struct', 'desc': rng.choice(DESCS), 'prefix': rng.choice(['', '', 'c_']), 'readonly': rng.random() < 0.2,
+            'members': [[m, gen_dt(rng, rng.choice(['float', 'float', 'int']))] for m in members]}       # in this order
+
+
 def gen_dtprops(rng, kind):
     """datatype properties given without a datatype (applied to the inherited one)"""
     r = rng.random()
@@ -1060,8 +1223,9 @@ def gen_dtprops(rng, kind):
         return out
     if kind in ('string', 'text'):
         return {'maxchars': rng.choice([2, 4, 12])} if rng.random() < 0.7 else {}
-    if kind == 'array':
-        return rng.choice([{'maxlen': rng.choice([4, 6])}, {'max': rng.choice([4, 6])}, {}])
+    if kind == 'array':       # of the array itself, or of its elements (ArrayOf.setProperty passes them on)
+        return rng.choice([{'maxlen': rng.choice([4, 6])}, {'max': rng.choice([4, 6])}, {}, {'min': rng.choice([0, 1])},
+                           {'max': rng.choice([4, 6, 50]), 'min': 0}, {'unit': rng.choice(UNITS)}])
     return {}
 
 
@@ -1179,9 +1343,22 @@ def gen_decl(rng, known_kind, is_mixin):
     return {'k': 'method'}
 
 
+def with_dtkw(rng, d):
+    """datatype properties as keywords of a Parameter that is given a datatype: `Parameter('..', ArrayOf(FloatRange()), max=5)`"""
+    if d.get('k') == 'param' and d.get('dt') and d['dt']['t'] in ('float', 'int', 'string', 'text', 'array') and rng.random() < 0.3:
+        kw = gen_dtprops(rng, d['dt']['t'])
+        if kw:
+            d['dtkw'] = kw
+    return d
+
+
 def decl_kind(decl, prev):
     if decl['k'] == 'param':
+        if decl.get('dt') and decl['dt']['t'] == 'status':
+            return 'tuple'
         return decl['dt']['t'] if decl.get('dt') else prev
+    if decl['k'] == 'struct':
+        return 'struct'
     if decl['k'] == 'cmd':
         arg = decl.get('arg')
         return 'cmd:' + ','.join(arg['members']) if arg and arg['t'] == 'struct' else 'cmd'
@@ -1212,9 +1389,16 @@ def gen_program(rng, big):
     ops = []
     nops = rng.randint(3, 14 if big else 8)
     ncls = 0
+    # scenario: most programs mix everything; some concentrate on class families extending the status codes, some on
+    # modules with struct parameters (several of them, to be accessed while another one is)
+    theme = rng.choice([None] * 7 + ['status', 'status', 'struct'])
+    if theme:
+        nops = max(nops, 7)
+    p_class, p_inst = {None: (0.45, 0.72), 'status': (0.75, 0.9), 'struct': (0.3, 0.85)}[theme]
+    used = {'std': [], 'codes': []}
     for _ in range(nops):
         r = rng.random()
-        if r < 0.45 or not modules:
+        if r < p_class or not modules:
             ncls += 1
             name = 'K%d' % ncls
             is_mixin = rng.random() < 0.2
@@ -1252,6 +1436,19 @@ def gen_program(rng, big):
                 est.update(kinds.get(b, {}))
             decls = []
             names_known = [n for n in est if est[n] is not None]
+            if not is_mixin and not is_feature and est.get('status') and rng.random() < (0.8 if theme == 'status' else 0.07):
+                # the status of this class: the codes of a class with a status (mostly its base), extended
+                parents = [b for b in bases if kinds.get(b, {}).get('status')]
+                if rng.random() < 0.08:
+                    parents = [c for c in modules + ROOTS[1:] if kinds.get(c, {}).get('status')]
+                decls.append(['status', {'k': 'param', 'dt': gen_status(rng, parents, used), 'props': {}, 'inherit': True}])
+            if not is_mixin and not is_feature and rng.random() < (0.6 if theme == 'struct' else 0.05):
+                sname = rng.choice(SNAMES)
+                d = gen_struct(rng)
+                if est.get(sname) is None and not any(est.get(d['prefix'] + m) for m, _ in d['members']):
+                    decls.append([sname, d])
+                    est[sname] = 'struct'
+                    est.update({d['prefix'] + m: dt['t'] for m, dt in d['members']})
             for _ in range(rng.choice([0, 1, 1, 2, 2, 3])):
                 if names_known and rng.random() < (0.7 if not is_mixin else 0.2):
                     aname = rng.choice(names_known)
@@ -1265,7 +1462,7 @@ def gen_program(rng, big):
                 if aname in CNAMES and prev is None and not is_mixin:
                     d = gen_cmd_arg(rng, {'k': 'cmd', 'desc': rng.choice(DESCS), 'props': {}, 'inherit': True})
                 else:
-                    d = gen_decl(rng, prev, is_mixin)
+                    d = with_dtkw(rng, gen_decl(rng, prev, is_mixin))
                     if d['k'] == 'cmd' and aname not in CNAMES and not is_cmd(prev):
                         # parameter names and command names are kept apart (a Parameter merged with a Command of
                         # the same name from another base is outside the model)
@@ -1301,7 +1498,7 @@ def gen_program(rng, big):
                 mkinds[name] = mest
                 mvalued[name] = mval
                 (mixins if is_mixin else features if is_feature else modules).append(name)
-        elif r < 0.72 or not insts:
+        elif r < p_inst or not insts:
             name = 'i%d' % (len(ex.steps) + 1)
             if sections and rng.random() < 0.18:
                 # a second module from a section of the loaded configuration (what a restart does: Server._processCfg runs
@@ -1313,6 +1510,8 @@ def gen_program(rng, big):
                     insts[name] = sections[sec][0]
                 continue
             cls = rng.choice(modules)
+            if theme == 'struct' and rng.random() < 0.8:
+                cls = rng.choice([c for c in modules if 'struct' in kinds[c].values()] or modules)
             if insts and rng.random() < 0.4:     # a sibling of an existing instance (same class, other configuration)
                 cls = insts[rng.choice(sorted(insts))]
             est = {k: v for k, v in kinds[cls].items() if v is not None and not is_cmd(v)}
@@ -1450,8 +1649,23 @@ def _argument_of(decl):
 
 def wire_decl(decl):
     k = decl['k']
+    if k == 'struct':
+        # what is written in the class body: the member parameters (description, datatype object) and the arguments of
+        # StructParam(); what that amounts to (names, influences, readonly of the members) is the model's business
+        from frappy.datatypes import StructOf
+        members = {m: mk_dt(dt) for m, dt in decl['members']}
+        return {'k': 'struct', 'desc': None if decl.get('desc') is None else jtext(decl['desc']), 'prefix': decl.get('prefix', ''),
+                'readonly': jtext(bool(decl.get('readonly'))), 'dt': obj_tree(StructOf(**members)),
+                'members': [[m, jtext('member ' + m), obj_tree(dt)] for m, dt in members.items()]}
+    if k == 'param' and decl.get('dt') and decl['dt']['t'] == 'status':
+        # the model works the codes out itself (parent: the class whose status is extended)
+        return {'k': 'param', 'desc': None if decl.get('desc') is None else jtext(decl['desc']), 'dt': None,
+                'status': {'parent': decl['dt'].get('parent'), 'std': list(decl['dt']['std']),
+                           'custom': [[n, int(c)] for n, c in decl['dt']['custom'].items()]},
+                'props': wire_props(decl.get('props') or {}), 'inherit': bool(decl.get('inherit', True))}
     if k == 'param':
         return {'k': 'param', 'desc': None if decl.get('desc') is None else jtext(decl['desc']), 'dt': wire_tree(decl.get('dt')),
+                'dtkw': wire_props(decl.get('dtkw') or {}),
                 'props': wire_props(decl.get('props') or {}), 'inherit': bool(decl.get('inherit', True))}
     if k == 'cmd':
         # the argument as it is after decoration: `Command.__call__` sets the optional members of a struct from the signature
@@ -1701,6 +1915,9 @@ def requests_for(program, init, steps, second=None):
          'steps': [{'target': step_target(st), 'after': st.get('text') or text_dumps(st['after'])} for st in steps]},
         {'p': 'C09', 'k': 'judge_val', 'pairs': sorted(pairs)},
         {'p': 'C09', 'k': 'judge_write', 'pairs': sorted(wpairs)},
+        # (step, module, member, action) -> what the module shows afterwards, in every context it was done in
+        {'p': 'C09', 'k': 'judge_ctx', 'pairs': sorted({(f'{i}:{key}', jtext(res)) for i, st in enumerate(steps)
+                                                        for key, _, res in st.get('ctx') or []})},
     ]
     first = at_creation(steps)
     laters = []
@@ -1733,8 +1950,8 @@ def first_diff(model, impl):
 def evaluate(ctx, program, init, steps, second, answers, laters):
     """-> (disagreement or None, [violations])"""
     it = iter(answers)
-    model, jrun, jval, jwrite = next(it), next(it), next(it), next(it)
-    for a in (model, jrun, jval, jwrite):
+    model, jrun, jval, jwrite, jctx = next(it), next(it), next(it), next(it), next(it)
+    for a in (model, jrun, jval, jwrite, jctx):
         if 'driver_error' in a:
             raise RuntimeError(f'driver error: {a}')
     viols = []
@@ -1792,6 +2009,13 @@ def evaluate(ctx, program, init, steps, second, answers, laters):
                       if x.get('writes') is not None and x['writes'] != x['validates']})
         viols.append({'sig': 'C09:write-ignores-own-datatype', 'what': f'write_<p>(v) through the wrapper does not follow the '
                       f'datatype of the instance written to: {bad[:4]}', 'case': program, 'detail': {'params': bad}})
+    if jctx['bad']:
+        i, key = jctx['bad'][0].split(':', 1)
+        seen = [[c, r] for k, c, r in steps[int(i)].get('ctx') or [] if k == key]
+        viols.append({'sig': 'C09:behaviour-depends-on-access-to-another-module',
+                      'what': f'after operation {i}: what {key.rsplit(":", 1)[0]} shows after the same member update ({key.rsplit(":", 1)[1]}) '
+                              f'depends on which other module is being accessed meanwhile: {json.dumps(seen)[:400]}',
+                      'case': program, 'detail': {'keys': jctx['bad']}})
     if not jval['ok']:
         viols.append({'sig': 'C09:validation-not-a-function-of-datainfo', 'what': 'two datatype objects with equal datainfo '
                       'give different outcomes on the boundary catalogue', 'case': program})
